@@ -439,6 +439,8 @@ pub fn c07(tier: Tier) -> i32 {
     // resumption, no panic), and sync requests for every block in every explored state (the helper
     // re-sends exactly the requested block)
     crate::proto::chain::run(&mut rep, "C07", tier);
+    // the block synchronizer alone: every bounded sequence of park / store / wait operations
+    crate::seq_sync::run(&mut rep, tier);
     for n in tier.pick(vec![0usize], vec![0usize, 2]) {
         let mut sc = crate::proto::solo::default_cfg(n, 3, tier);
         sc.with_votes = false;
